@@ -30,6 +30,10 @@ try:
     from . import geom_rules as GR
 except ImportError:  # pragma: no cover
     GR = None
+try:
+    from . import deriv_rules as DR
+except ImportError:  # pragma: no cover
+    DR = None
 
 
 def _get(mod, name):
@@ -67,12 +71,13 @@ RULES = {
     "R31": _get(SR, "r31_reduce_last"),
     "R30": _get(GR, "r30_conv_geometry"),
     "R32": _get(SR, "r32_sliced_shape_contract"),
+    "R33": _get(DR, "r33_derivative_formula"),
 }
 
 # property -> rules (DESIGN.md section 4)
 PROPERTY_RULES = {
     "C01": ["R9", "R8", "R5", "R27", "R6", "R24", "R11", "R25", "R23", "R26"],
-    "C02": ["R12", "R13", "R15", "R9", "R29", "R31", "R30", "R32"],
+    "C02": ["R12", "R13", "R15", "R9", "R33", "R29", "R31", "R30", "R32"],
     "C03": ["R11", "R21"],
     "C08": ["R1", "R2", "R3", "R4", "R7"],
     "C09": ["R8", "R9", "R10", "R5"],
@@ -83,7 +88,7 @@ PROPERTY_RULES = {
     "C14": ["R21", "R28", "R22", "R20", "R24", "R23"],
     "C16": ["R16", "R3", "R17"],
     "C17": ["R13", "R14", "R26"],
-    "C18": ["R20", "R21", "R7"],
+    "C18": ["R20", "R21", "R7", "R8"],
     "C19": ["R19"],
 }
 
@@ -149,8 +154,8 @@ EXPLANATION = {
            "write (R16,R3), and equality reads exactly dimensions and values as a conjunction (R17). Does NOT decide index arithmetic.",
     "C17": "Clause-level static verdict: linearity type system over every built-in backward closure and the engine's delta path "
            "(R13); default seed is ones of the root's shape (R14); no engine branch reads adjoint values (R26). Over the reals; user closures out of scope.",
-    "C18": "Clause-level static verdict: ownership-edge inventory (R20), fresh graph-free parameters (R21), no destructors (R7).",
+    "C18": "Clause-level static verdict: ownership-edge inventory (R20), fresh graph-free parameters (R21), no destructors (R7), and a result of untracked operands records nothing (R8): the deltas built inside derivative closures - whose operands are untracked while they run - and hence the stored gradients are graph-free, so gradient slots cannot close a cycle.",
     "C19": "Clause-level static verdict: the f32 build is the f64 build with the float type substituted (body-by-body MIR "
-           "comparison with the width erased), no assertion depends on a float, and every other rule gives the same obligations "
+           "comparison with the width erased), no assertion depends on a float, no width-characteristic constant (EPSILON, MAX, ..) enters a computation, and every other rule gives the same obligations "
            "under both configurations (R19). Does NOT decide numerical agreement.",
 }
